@@ -40,6 +40,7 @@ type Knobs struct {
 	RateLimit     int      `json:"rate_limit,omitempty"`
 	Warnings      []string `json:"warnings,omitempty"`
 	Preseed       string   `json:"preseed,omitempty"` // name of a tree generator for pre-existing content
+	GCOff         bool     `json:"gc_off,omitempty"` // negative frequency: no collection at all (only where the model does not count on one)
 	FaultRate     int      `json:"fault_rate,omitempty"`
 	FaultKinds    []string `json:"fault_kinds,omitempty"`
 	Torn          bool     `json:"torn,omitempty"`
@@ -135,6 +136,9 @@ func (k Knobs) config(root string) config.Config {
 		// repository cache and when the store is closed, and the harness forces passes), the ticker just never fires.
 		// A negative frequency would switch the collection off altogether (what that flag does is checked by C19).
 		c.Storage.GC.Frequency = 1000000 * time.Hour
+	}
+	if k.GCOff {
+		c.Storage.GC.Frequency = -1 // collection switched off altogether (sessions still expire)
 	}
 	c.Storage.GC.GracePeriod = time.Duration(k.GCGraceMs) * time.Millisecond
 	c.Storage.GC.RepoUploadMax = k.UploadMax
